@@ -87,3 +87,11 @@ Definition jt_parse_run (i : JtParse) : option (list Z) :=
   | JData j => parse_data j
   end.
 Definition jt_parse_eqb : option (list Z) -> option (list Z) -> bool := option_eqb zlist_eqb.
+
+(* ---- the size gate in front of the decoder (RpcMsg.v): in = the request as (bytes up to the end of the document,
+   bytes sent, framing) / (bytes up to the end of the document, frames); out = 0 refused on the declared length,
+   1 no complete document (nothing runs), 2 decoded (the call runs: observed on the side-effect counter).
+   Over websocket "refused" and "no complete document" look the same from outside (closed, nothing ran). *)
+Definition size_gate_run (i : GateIn) : Z := gate_class (size_gate i).
+Definition size_gate_eqb (model observed : Z) : bool :=
+  (model =? observed) || ((model =? 1) && (observed =? 0)).
